@@ -9,9 +9,10 @@ cd "$wt" || exit 2
 git diff --quiet && { echo "$id: worktree has no change applied"; exit 2; }
 cp "$out/demo_test.go" "$wt/$dest"
 timeout 600 go test -vet=off -count=1 -timeout 120s -run "$pat" "$pkg" > /tmp/seed/verify-$id-with.log 2>&1; with=$?
-git stash -q
+# (git stash is shared between worktrees: reverse-apply the patch instead)
+git apply -R "$out/patch.diff" || { echo "$id: cannot reverse patch"; exit 2; }
 timeout 600 go test -vet=off -count=1 -timeout 120s -run "$pat" "$pkg" > /tmp/seed/verify-$id-without.log 2>&1; without=$?
-git stash pop -q
+git apply "$out/patch.diff"
 rm -f "$wt/$dest"
 timeout 1500 go test -vet=off -count=1 ./... > /tmp/seed/verify-$id-suite.log 2>&1; suite=$?
 echo "$id: demo_with_patch_exit=$with demo_without_patch_exit=$without suite_with_patch_exit=$suite"
